@@ -51,9 +51,11 @@ def gen_cases(tier, seed):
     for (la, lo, al), (sp, co, cl), att, weave, form, typ in itertools.product(
             sites, cruises, kin.ATTITUDES, (False, True), FORMS, ('rate', 'increment')):
         lo2 = lo if abs(lo) > 179 else lo + lon_shift
+        # the time axis does not start at zero on every second lattice point (dyadic offset: exact stamps)
+        t0 = 777.25 if (len(cases) % 2) else 0.0
         cases.append(dict(part='moving', lat=la, lon=lo2, alt=al, speed=sp, course=co, climb=cl,
                           attitude=att, weave=weave, form=form, type=typ, ladder=ldr, T=8.0,
-                          phase=phase))
+                          phase=phase, t0=t0))
     # long fast meridional flights (1 h): the latitude fixed-point iteration of the
     # initial-position form only matters here
     for la, co, form, typ in itertools.product((38.0, -38.0), (0.0, 180.0), FORMS, ('rate', 'increment')):
@@ -112,15 +114,16 @@ def run_moving(case):
     for dt in ldr:
         n = int(round(T / dt))
         t = np.arange(n + 1) * dt
+        t_user = t + case.get('t0', 0.0)        # the motion is the same, the user's clock is shifted
         lla = m.lla(t)
         lla_deg = np.column_stack([lla[:, 0] * geo.R2D, lla[:, 1] * geo.R2D, lla[:, 2]])
         rph_deg = m.rph(t) * geo.R2D
         vel = m.vel(t)
-        snap = (t.copy(), lla_deg.copy(), rph_deg.copy(), vel.copy())
-        traj, imu = call_generate(form, t, lla_deg, rph_deg, vel, typ)
-        if any((a != b).any() for a, b in zip(snap, (t, lla_deg, rph_deg, vel))):
+        snap = (t_user.copy(), lla_deg.copy(), rph_deg.copy(), vel.copy())
+        traj, imu = call_generate(form, t_user, lla_deg, rph_deg, vel, typ)
+        if any((a != b).any() for a, b in zip(snap, (t_user, lla_deg, rph_deg, vel))):
             viol.append(dict(sig='c03-arg-mutated', msg='generate_imu modified an input array'))
-        for s in structure(traj, imu, t, typ):
+        for s in structure(traj, imu, t_user, typ):
             viol.append(dict(sig='c03-structure', msg=s))
         if viol and any(v['sig'] == 'c03-structure' for v in viol):
             return viol, {}
@@ -142,7 +145,7 @@ def run_moving(case):
         if typ == 'increment' and form == 'lla_vel' and not case.get('long'):
             # interior accuracy per unit time of the increment readings vs that of the rate readings of the
             # same call arguments (the splines are the same): see the order oracle below
-            _, imu_r = call_generate(form, t, lla_deg, rph_deg, vel, 'rate')
+            _, imu_r = call_generate(form, t_user, lla_deg, rph_deg, vel, 'rate')
             wr, fr = m.imu(t)
             k = slice(int(0.2 * n), int(0.8 * n))
             o['interior'] = (np.abs(g[k] - w[k]).max() / dt, np.abs(a[k] - f[k]).max() / dt,
